@@ -282,9 +282,12 @@ def rule_rangedecoder(facts):
         low_e = sw[0].term.otherwise
         okt = True
         try:
-            for R in (0, 1, (1 << 24) - 1, 1 << 24, (1 << 24) + 1, 0xFFFFFFFF):
-                if pat.eval_cmp(t, _leaf(R, 0, 1)) != (R < (1 << 24)):
-                    okt = False
+            tvn = [bool(pat.eval_cmp(t, _leaf(R, 0, 1))) for R in (0, 1, (1 << 24) - 1, 1 << 24, (1 << 24) + 1, 0xFFFFFFFF)]
+            wantn = [R < (1 << 24) for R in (0, 1, (1 << 24) - 1, 1 << 24, (1 << 24) + 1, 0xFFFFFFFF)]
+            if tvn == [not w for w in wantn]:
+                low_e = sw[0].term.targets[0][1]        # the test is `range >= 2^24` (early return): the other edge normalises
+            elif tvn != wantn:
+                okt = False
         except (pat.NotEvaluable, pat.Overflow):
             okt = False
         if not okt:
